@@ -272,7 +272,7 @@ var _ = io.EOF
 // wrapKinds are the concrete reader types a stream is offered through: code
 // that type-asserts its reader (io.ByteReader, *bufio.Reader, *bytes.Buffer)
 // takes other paths for them.
-var wrapKinds = []string{"script", "script", "bytes.Reader", "bytes.Buffer", "bufio16", "bufio4096"}
+var wrapKinds = []string{"script", "script", "bytes.Reader", "bytes.Buffer", "bufio16", "bufio4096", "chunklen"}
 
 // wrappedStream offers sr (or its data) through a reader of the given kind
 // and reports how many bytes of the stream the consumer has taken so far.
@@ -290,6 +290,8 @@ func wrappedStream(kind string, sr *guard.ScriptReader) (io.Reader, func() int) 
 	case "bufio4096":
 		r := bufio.NewReaderSize(sr, 4096)
 		return r, func() int { return sr.Consumed() - r.Buffered() }
+	case "chunklen":
+		return guard.ChunkLenReader{ScriptReader: sr}, sr.Consumed
 	}
 	return sr, sr.Consumed
 }
